@@ -2136,6 +2136,8 @@ def read_lines(path_or_source, *, include=False, include_dirs=None):
 
             # modify the line by appending the size to the end (too hacky?)
             line.contents = '{} {}'.format(raw_line, size)
+            # remember which file the search found: it is re-opened later
+            line.include_bytes_path = include_path
             lines.append(line)
         else:
             lines.append(line)
@@ -2249,6 +2251,8 @@ def parse_item(line_tokens):
             raise AssemblerError('include_bytes must specify a file', line)
         _, path, size = tokens
         size = int(size, base=0)
+        # use the file found by the reader (next to the source or in an include dir)
+        path = getattr(line, 'include_bytes_path', path)
         return IncludeBytes(line, path, size)
     # strings
     elif head == 'string':
